@@ -5,8 +5,9 @@ ENTRY = dict(
         title="A reported minimum really is the minimum sampling overhead",
         prop_file="Properties/C08.v",
         corr_files=["Corr/C08Corr.v"],
-        theorems=["c08_action_factor", "c08_factor_ge_1", "c08_cost_monotone", "c08_dijkstra", "c08_frontier_invariant",
-                  "c08_flag_sound_guarded", "c08_pruning_sound", "c08_pruning_sound_request", "c08_flag_sound_unbounded",
+        theorems=["c08_action_factor", "c08_factor_ge_1", "c08_cost_monotone", "c08_dijkstra", "c08_frontier_invariant", "c08_driver_invariant",
+                  "c08_flag_sound_guarded", "c08_pruning_sound", "c08_pruning_sound_request", "c08_result_two_qubit",
+                  "c08_wide_gate_no_result", "c08_gammas_from_table", "c08_flag_sound_unbounded",
                   "c08_flag_sound", "c08_pruning_sound_bounded", "c08_flag_sound_bounded",
                   "c08_unrestricted", "c08_seed_independent", "c08_result_attained", "c08_unrestricted_spec",
                   "c08_seed_independent_spec", "c08_unrestricted_unbounded", "c08_seed_independent_unbounded",
@@ -33,7 +34,12 @@ ENTRY = dict(
                    "under a simulation invariant, 4^(wire cuts) <= cost bounds the wire cuts by max_wire_cuts_gamma, and when the "
                    "assignment costs more than the greedy incumbent the greedy path itself is shown to exist under the smaller budget. "
                    "Consequently c08_flag_sound_unbounded / c08_unrestricted_unbounded / c08_seed_independent_unbounded hold for every "
-                   "request whose multi-qubit gates act on two distinct qubits (circ_wf) without any hypothesis on the search space. "
+                   "request without any hypothesis on the search space; their only hypotheses are the two checkable facts gtab_ge1 (every kappa in "
+                   "the gate table handed to the model is >= 1; evaluated by the Coq case checker on every generated case) and circ_nodup (no "
+                   "instruction uses a qubit twice). That every multi-qubit gate acts on exactly two qubits is DERIVED from the existence of a "
+                   "result (c08_result_two_qubit: a returned state is a goal reached from level 0, a path visits every level, and the "
+                   "successor function raises ValueError at the level of a wider gate); conversely a circuit with a wider gate never yields a "
+                   "result (c08_wide_gate_no_result; the model returns the ValueError, compared with find_cuts in the malformed stream). "
                    "The finite-domain enumeration (c08_pruning_sound_bounded: <=3 gates, <=4 qubits, gammas 3/7; <=4 gates in "
                    "Proofs/BestFirstSpec4.v outside this property's cone) is kept as an independent check of the same statement. "
                    "Closed under the global context. The model's (overhead, minimum_reached) are compared exactly with find_cuts on >1300 requests "
@@ -45,12 +51,15 @@ ENTRY = dict(
             "correspondence (all intermediate objects) and the C08 correspondence (overhead and flag, strict)",
             "the model implements the REPAIRED behaviour of BestFirstSearch.optimization_pass (a popped state over a bound is re-queued unless "
             "the flag is set; candidate fix F3); fact bf_bound_branch_requeues ties this to the source and is false on the unrepaired tree",
-            "gate gammas >= 1 (hypothesis gammas_ok_in; kappa of every QPD basis, C15; monitored on every generated case)",
-            "c08_pruning_sound is proved for gate lists of well-formed two-qubit gates (two distinct qubits below the number of qubits: "
-            "hypothesis circ_wf of the request-level theorems; Qiskit rejects duplicate qubit arguments and the cut finder refuses gates on "
-            "more than two qubits) against the wire-segment specification of Proofs/BestFirstSpec.v (assignment_cost), which is a "
-            "hand-written declarative definition; the brute-force oracle of harness/c08.py still probes the same statement on every "
-            "generated case (a rejected case is marked k_oracle=false and reported)",
+            "gate gammas >= 1: reduced to the executable check gtab_ge1 of the gate table (c08_gammas_from_table), evaluated inside Coq on every "
+            "generated case (Corr/C08Corr.v: chk_c08); that the table holds kappa of QPD bases, which are >= 1, is C15 (c15_ge_1, over the reals; "
+            "not connected by proof)",
+            "c08_pruning_sound is proved for gate lists of well-formed two-qubit gates (two distinct qubits below the number of qubits). For a "
+            "request of find_cuts that returns a value, 'two qubits' is derived (c08_result_two_qubit) and 'below the number of qubits' is "
+            "proved from the renumbering; 'distinct' remains the hypothesis circ_nodup of the request-level theorems (Qiskit rejects duplicate "
+            "qubit arguments when an instruction is appended). The specification is the wire-segment semantics of Proofs/BestFirstSpec.v "
+            "(assignment_cost), a hand-written declarative definition; the brute-force oracle of harness/c08.py still probes the same "
+            "statement on every generated case (a rejected case is marked k_oracle=false and reported)",
             "binary64: gamma_UB ** 2 is exact below 2^26 (cases with a larger greedy gamma are skipped by the generator)",
             "max_wire_cuts_gamma is modelled exactly over Q (np.log2/np.ceil corner cases at powers of two are not modelled)",
             "harness/c08.py: `judge` (own 5^g brute force on wire segments) runs on EVERY generated case (contract judge_accepts_clean_case) with "
